@@ -4,6 +4,7 @@ from ..core.report import CheckContext
 from ..core.resolve import Resolver
 from ..rules import bookkeeping as bk
 from ..rules import inval as _inval_rl
+from ..rules import unitfree
 from .common import run_control, generic_rules, anchor_funcs
 
 
@@ -14,6 +15,7 @@ def analyse(ctx: CheckContext, p: Program):
     funcs = r.pipeline_cone()
     ctx.guard(bk.check_pinch_roles, ctx, p, r, funcs)
     ctx.guard(bk.check_symmetric_collapse, ctx, p, r, funcs)
+    ctx.guard(unitfree.check_offset_free, ctx, p, r)
 
 
 def run(ctx: CheckContext):
@@ -24,6 +26,9 @@ def run(ctx: CheckContext):
         "decides that hot and cold pinch rows/temperatures are never swapped on the way from detection to the record (role read from identifiers containing hot/cold); "
         "which rows are selected (first-zero/last-zero logic, tolerance) is numeric and NOT decided",
     ]
+    run_control(ctx, "C06/kelvin-offset-in-shared-extractor", analyse, p.root, "OpenPinch/utils/miscellaneous.py",
+                "    elif isinstance(val, ValueWithUnit):\n        return val.value",
+                "    elif isinstance(val, ValueWithUnit):\n        return val.value - 273.15 if val.units == 'K' else val.value", "OFFSET-FREE")
     run_control(ctx, "C06/zero-pinch-dropped", analyse, p.root, "OpenPinch/classes/energy_target.py",
                 "        elif isinstance(self.cold_pinch, float):", "        elif self.cold_pinch:", "TRUTHY")
     run_control(ctx, "C06/pinch-read-after-export-rounding", analyse, p.root, "OpenPinch/analysis/direct_integration_entry.py",
